@@ -25,6 +25,16 @@ Inductive effect :=
 | RGlobal (s : string)          (* non-constant namespace / class static read                                  *)
 | RExcluded (s : string).       (* documented process-wide state excluded by the property texts                *)
 
+(* how the (non-copy) constructors give a member its first value *)
+Inductive init_kind :=
+| InitParam      (* derived from the constructor parameters (or initialised differently by two constructors) *)
+| InitConst      (* the same parameter-free expression in every constructor                                  *)
+| InitDefault.   (* no constructor mentions it: default member initialiser / default-constructed            *)
+
+(* function-local statics are a location class of their own: WStaticInit = WRITE-ONCE (only the guarded initialisation, performed by
+   the first execution that reaches the declaration), WStaticLocal = WRITE-MANY (assigned after its initialisation) *)
+Inductive static_class := WriteOnce | WriteMany.
+
 Inductive rc_order := AcquireFirst | ReleaseFirstGuarded | ReleaseFirstUnguarded | NoAssign | NoProtocol.
 
 Record rc_desc := {
@@ -52,6 +62,8 @@ Record class_desc := {
   cd_assign : option (list (string * src));   (* None: no usable operator=    *)
   cd_reads : list string;
   cd_params : list string;      (* members whose value the constructors derive from their parameters *)
+  cd_init : list (string * init_kind);        (* how every member gets its first value *)
+  cd_ctor_effects : list effect;              (* what the constructors (of the class and of its bases) do to statics / globals *)
   cd_copy_effects : list effect;              (* what copy-construction does to the SOURCE / shared heap *)
   cd_rc : option rc_desc;
   cd_methods : list method_desc }.
@@ -67,13 +79,25 @@ Fixpoint lookup {A} (x : string) (l : list (string * A)) : option A :=
 Definition find_method (d : class_desc) (n : string) : option method_desc :=
   find (fun m => String.eqb n (m_name m)) (cd_methods d).
 
-(* -- copy / assign completeness of one member *)
+Definition static_class_of (e : effect) : option (string * static_class) :=
+  match e with
+  | WStaticInit s => Some (s, WriteOnce)
+  | WStaticLocal s => Some (s, WriteMany)
+  | _ => None
+  end.
+
+(* a member every constructor leaves to its default initialisation *)
+Definition default_init_b (d : class_desc) (x : string) : bool :=
+  match lookup x (cd_init d) with Some InitDefault | None => true | _ => false end.
+
+(* -- copy / assign completeness of one member.  A member the copy constructor default-initialises is a faithful copy only when
+   every constructor default-initialises it too *)
 Definition copy_ok_b (d : class_desc) (x : string) : bool :=
   match cd_copy d with
   | None => true
   | Some mp => match lookup x mp with
                | Some (SrcMember y) => String.eqb x y
-               | Some SrcDefault => true
+               | Some SrcDefault => default_init_b d x
                | _ => false
                end
   end.
@@ -98,12 +122,21 @@ Definition writes_member_b (x : string) (e : effect) : bool :=
 Definition written_b (d : class_desc) (x : string) : bool :=
   existsb (fun m => m_const m && existsb (writes_member_b x) (m_effects m)) (cd_methods d).
 
-(* a member whose value is, in every object of every history, the one its construction parameters gave it *)
-Definition stable_b (d : class_desc) (x : string) : bool :=
-  copy_ok_b d x && assign_ok_b d x && negb (written_b d x).
-
 Definition benign_effect_b (e : effect) : bool :=
   match e with RExcluded _ => true | _ => false end.
+
+(* no constructor touches a function-local static or a mutable global (documented excluded globals apart): the members after
+   construction are a function of the construction parameters *)
+Definition ctor_pure_b (d : class_desc) : bool := forallb benign_effect_b (cd_ctor_effects d).
+Definition ctor_ok_b (d : class_desc) (x : string) : bool := negb (mem x (cd_params d)) || ctor_pure_b d.
+
+(* the description of the constructors covers cd_params: a member outside cd_params is never initialised from a parameter *)
+Definition init_consistent_b (d : class_desc) : bool :=
+  forallb (fun xk => match snd xk with InitParam => mem (fst xk) (cd_params d) | _ => true end) (cd_init d).
+
+(* a member whose value is, in every object of every history, the one its construction parameters gave it *)
+Definition stable_b (d : class_desc) (x : string) : bool :=
+  copy_ok_b d x && assign_ok_b d x && negb (written_b d x) && ctor_ok_b d x.
 
 Definition pure_b (m : method_desc) : bool := forallb benign_effect_b (m_effects m).
 
